@@ -57,12 +57,19 @@ def fill(claim, NA):
 		  "order quantity of every period equals capped(policy(IL + min over suppliers (RM + on-order + held) reported at the end of the previous period - inbound orders of "
 		  "the current period)), and 0 under an order-pausing disruption, whatever the other nodes do. Tie: (a) pure policy function vs "
 		  "Policy.get_order_quantity exactly incl. boundaries; (b) model kernel orderQty evaluated on the state the real simulator observed, every node and "
-		  "period; (c) echelon vs converted-local base-stock trajectories on serial systems (OLT=0) Python-vs-Python — the equivalence itself is not yet a "
-		  "theorem (labelled test).", SIMNOTE)
+		  "period, incl. an echelon-position predicate written from the docstrings (EBS x all four disruption types). ECHELON NODES (Props/NetEBS.lean): "
+		  "orders_follow_policy_network_ebs - the same statement for echelon base-stock nodes with the echelon inventory position of the previously reported state. "
+		  "SERIAL SYSTEMS (Props/C04Ech.lean over Model/SerialEchelon.lean): eip_eq_sumLip (echelon position = sum of the local positions of the stage and everything "
+		  "downstream, every state), echelon_equals_local / echelon_equals_local_from_start - echelon base-stock with the converted levels and local base-stock generate "
+		  "IDENTICAL trajectories for any number of stages, lead times and non-negative demands; (c) the serial model is run against the real simulator under BOTH policies "
+		  "(IL and order of every stage and period), its hypotheses evaluated per instance; with order lead times the two policies legitimately differ (counted).", SIMNOTE)
 	claim('C05',
 		  "Theorems (Props/C05.lean): period_costs_def (each component as a function of the reported state, in-transit default only for None), "
-		  "in_transit_rate_zero_is_not_none, total_is_sum, total_append. Tie: model cost kernel evaluated on every end-of-period state the real simulator "
-		  "reported (exact), simulation() return value vs sum, run_multiple_trials mean/SEM vs recorded per-trial totals (Python-side).", SIMNOTE)
+		  "in_transit_rate_zero_is_not_none, total_is_sum, total_append, holding_function_on_items_held; multi-product nodes (Props/C05MP.lean over Model/MultiProd.lean "
+		  "mpCosts): mp_costs_def, mp_total_def, each_raw_material_once (a raw material shared by several products is priced exactly once), cost_independent_of_sharing. "
+		  "Tie: model cost kernels evaluated on every end-of-period state the real simulator reported (single-product networks exact; multi-product networks with "
+		  "per-product rates/revenues, shared and multi-sourced raw materials to 1e-9), simulation() return value vs sum, run_multiple_trials mean/SEM vs recorded "
+		  "per-trial totals (Python-side).", SIMNOTE)
 	claim('C06',
 		  "The Lean model is the independent reference implementation of the documented sequence of events. Theorems (Props/C06.lean): step_batch (every split), "
 		  "trace_length, resolve_rename (any injective renumbering leaves what the simulator sees unchanged), op_skips_order, sp_holds, backorders_first, "
@@ -74,9 +81,9 @@ def fill(claim, NA):
 		  "nearest_unsorted_spec (index of a first element at minimal distance), nearest_sorted_spec (searchsorted-based branch returns a nearest element for ANY "
 		  "sorted array and value: below, inside, above, ties); direct convolution: lsum_conv (mass = product of masses), convMany_sum_one, conv_nn / convMany_nn, "
 		  "conv_length; sumDiscreteUniforms_is_pmf; compareLists_iff_perm (multiset equality); ensure_list_cases / ensure_dict_cases; sortByKey_spec (sorted + "
-		  "permutation); time-period list conventions (C11's scalar_equiv_list, listT_equiv_listT1). Tie: each helper on generated shapes (empty, singleton, ties, wrong "
-		  "lengths, None, ndarray/list/scalar) compared with the Lean model exactly (FFT convolution, Irwin-Hall: 1e-9) plus the documented predicate; aliasing/mutation "
-		  "checks. String-key helpers and predicates are harness-only reference tests (labelled).",
+		  "permutation); time-period lists: ensure_time_cases, ensure_time_length (always T+1 entries), ensure_time_forms_agree, and C11's scalar_equiv_list, listT_equiv_listT1. Tie: each helper on generated shapes (empty, singleton, ties, wrong "
+		  "lengths, None, ndarray/list/scalar) compared with the Lean model exactly (FFT convolution, Irwin-Hall: 1e-9) plus the documented predicate; every helper call is "
+		  "checked for argument mutation (only change_dict_key is documented to work in place); build_node_data_dict against its documented rules. String-key helpers and predicates are harness-only reference tests (labelled).",
 		  "Trusted: Lean kernel + 3 axioms; harness. Modelled not verified: helpers.py functions listed (Model/Helpers.lean). FFT vs direct convolution agree only up to "
 		  "rounding (FP); that the Irwin-Hall formula is the true cdf is not proved. NumPy's searchsorted/argmin/fft are black boxes.")
 
@@ -167,7 +174,8 @@ def fill(claim, NA):
 		  "Theorems (Props/C10.lean), over an ordered field with the optimiser's decision entering through its first-order equation: aq_bq_min; eoq_optimal (h Q*^2 = 2K lambda => "
 		  "cost(Q*) = h Q* and cost(Q*) <= cost(Q) for every Q > 0), epq_optimal, eoqb_fraction_optimal + eoqb_optimal (jointly optimal in (Q, x) over all Q > 0 and all x), "
 		  "jrp_cycle_optimal, eoq_mul_yield_optimal, eoq_add_yield_optimal; discrete newsvendor on any finite pmf: cdfAt_mono', nvCost_step (g(y+1) - g(y) = (h+b)F(y) - b), "
-		  "nv_discrete_optimal (the first level whose cdf reaches b/(b+h) minimises h nbar + b n over ALL levels y >= 0), nv_discrete_coherent. "
+		  "nv_discrete_optimal (the first level whose cdf reaches b/(b+h) minimises h nbar + b n over ALL levels y >= 0), nv_discrete_coherent; addYield_is_newsvendor + "
+		  "add_yield_optimal (additive-yield newsvendor with a discrete yield: d - F_Y^-1(h/(h+p)) is optimal among all S <= d). "
 		  "Tie: optimise-then-evaluate coherence, first-order residuals (1e-8), model cost functions vs evaluation mode on decision grids (1e-9), discrete newsvendor vs the exact model "
 		  "(levels and costs exactly), JRP bookkeeping; normal / Poisson / explicit-profit / myopic / continuous / yield / disruption newsvendors and EOQ-with-disruptions: coherence, "
 		  "defining expectation and no-better-alternative on grids (labelled tests).",
